@@ -259,6 +259,9 @@ def cases(draw):
                 lang=draw(st.sampled_from(["en", "de", "fr", "ja"])), db=draw(st.booleans()), classes=classes)
 
 
+FUZZ_IMPORTS = ['mwlib.parser.refine.uparser', 'mwlib.parser.refine.core', 'mwlib.parser.refine.compat', 'mwlib.parser.expander', 'mwlib.parser.refine.parse_table', 'mwlib.parser.refine.tagparser', 'mwlib.parser.styleanalyzer', 'mwlib.parser.nodes', 'mwlib.parser.advtree', 'mwlib.utils.uniq']
+
+
 def run_shard(ctx):
     @ctx.settings(ctx.n(40000, 800000))
     @given(cases())
@@ -277,6 +280,7 @@ def run_shard(ctx):
         ctx.record(jdump(case), labels, nt, sample=dict(tag=case["tag"], context=case["context"], body=case["body"][:200], db=case["db"]))
 
     ctx.run_given(t)
+    ctx.fuzz_campaign("", (0, 320000))
 
     @ctx.settings(ctx.n(4000, 100000))
     @given(S.soup(16))
